@@ -462,6 +462,46 @@ fn corpus_sample(n: usize) -> Vec<Vec<u8>> {
     out
 }
 
+/// Second frozen part of the corpus (added after the seeded mutants C10-g/h/i): structured strings on
+/// which several modes compete - three segments of different character classes with lengths 2..8, and
+/// one-class bodies followed by a byte from the edges of the modes' value tables.  Like `corpus_sample`
+/// it must never change without regenerating the exact known-finding list.
+fn corpus_grid() -> Vec<Vec<u8>> {
+    let classes: [&[u8]; 7] = [b"ABCDEFGHIJKL", b"123456789012", b"abcdefghijkl", b"*>* >*> *>*>", b".,-/:;<=?@!.", &[0xE9, 0xFA, 0x80, 0xFF, 0xE9, 0xFA, 0x80, 0xFF, 0xE9, 0xFA, 0x80, 0xFF], b"            "];
+    let lens = [2usize, 4, 5, 8];
+    let mut out = Vec::new();
+    for a in 0..7 {
+        for b in 0..7 {
+            for c in 0..7 {
+                if a == b || b == c {
+                    continue;
+                }
+                // keep the corpus moderate: the three classes in all orders, lengths from a fixed sub-grid
+                for (i, la) in lens.iter().enumerate() {
+                    for (j, lb) in lens.iter().enumerate() {
+                        let lc = lens[(i + 2 * j + a + c) % 4];
+                        let mut v = classes[a][..*la].to_vec();
+                        v.extend_from_slice(&classes[b][..*lb]);
+                        v.extend_from_slice(&classes[c][..lc]);
+                        out.push(v);
+                    }
+                }
+            }
+        }
+    }
+    let edge = [0x00u8, 0x1f, 0x20, 0x2f, 0x30, 0x39, 0x3a, 0x40, 0x41, 0x5a, 0x5b, 0x5e, 0x5f, 0x60, 0x61, 0x7a, 0x7b, 0x7e, 0x7f, 0x80, 0x81, 0x9f, 0xa0, 0xaf, 0xc0, 0xdf, 0xfe, 0xff];
+    for a in 0..6 {
+        for n in 3..=12usize {
+            for e in edge {
+                let mut v = classes[a][..n].to_vec();
+                v.push(e);
+                out.push(v);
+            }
+        }
+    }
+    out
+}
+
 fn extra(ctx: &Ctx) -> Map<String, Value> {
     let mut m = Map::new();
     let hits = ctx.known_hits.lock().unwrap();
@@ -509,12 +549,13 @@ fn run_stages(ctx: &Arc<Ctx>) {
     let strings = corpus_strings(5);
     // the corpus is the same in both tiers: every sub-optimal input in it is listed by exact signature
     let sample = corpus_sample(10_000);
+    let grid = corpus_grid();
     for (list, modes) in corpus_configs() {
-        for s in strings.iter().chain(sample.iter()) {
+        for s in strings.iter().chain(sample.iter()).chain(grid.iter()) {
             corpus.push(EncCase { data: s.clone(), list, modes, macros: false, fnc1: false, eci: None, stratum: "corpus" });
         }
     }
-    ctx.run_enumerated("corpus", "enc", corpus, Some("fixed corpus: all strings of length <= 5 over a 7 letter alphabet + fixed-seed sample, 3 configurations"), |c| check_with(c, Strictness::Corpus, ctx));
+    ctx.run_enumerated("corpus", "enc", corpus, Some("fixed corpus: all strings of length <= 5 over a 7 letter alphabet + fixed-seed sample of 10 000 + 5 700 three-segment / boundary-byte strings, 3 configurations"), |c| check_with(c, Strictness::Corpus, ctx));
     // (b) seeded exploration
     let o = EncGenOpts { long_weight: 0, macro_weight: 0, allow_fnc1: false, allow_macros_flag: false, short_only: true, ..Default::default() };
     ctx.run_generated("explore", "enc-explore", ctx.cases(200_000, 3_000_000), || g_enc_case(o).prop_map(|mut c| { c.macros = false; c }), |c| check_with(c, Strictness::Explore, ctx));
